@@ -37,7 +37,14 @@ type requirement struct {
 }
 
 func (r requirement) edges(fn *ssa.Function) map[ir.Edge]bool {
-	return ir.EdgesWhere(fn, func(c ir.Cmp) bool {
+	return r.edgesDepth(fn, 0)
+}
+
+// edgesDepth: the edges of fn on which the requirement is established: comparison edges,
+// and the success edges (err == nil) of calls to extracted helpers that report success
+// only after establishing it themselves.
+func (r requirement) edgesDepth(fn *ssa.Function, depth int) map[ir.Edge]bool {
+	out := ir.EdgesWhere(fn, func(c ir.Cmp) bool {
 		for _, p := range r.preds {
 			if p(c) {
 				return true
@@ -45,6 +52,43 @@ func (r requirement) edges(fn *ssa.Function) map[ir.Edge]bool {
 		}
 		return false
 	})
+	if depth >= 2 {
+		return out
+	}
+	ir.Instrs(fn, func(in ssa.Instruction) {
+		call, ok := in.(*ssa.Call)
+		if !ok || !ir.HasErrResult(call) {
+			return
+		}
+		g := call.Call.StaticCallee()
+		if g == nil || g.Blocks == nil || !ir.InRepo(g) || g == fn {
+			return
+		}
+		ge := r.edgesDepth(g, depth+1)
+		if len(ge) == 0 {
+			return
+		}
+		ensures, n := true, 0
+		ir.Instrs(g, func(x ssa.Instruction) {
+			ret, isRet := x.(*ssa.Return)
+			if !isRet || x.Block() == g.Recover || !mayReturnNilError(ret) {
+				return
+			}
+			n++
+			if ok, _ := ir.MustPassEdge(g, nil, ret, ge, nil); !ok {
+				ensures = false
+			}
+		})
+		if !ensures || n == 0 {
+			return
+		}
+		if ev := ir.ErrResult(call); ev != nil {
+			for _, t := range ir.NilTests(ev) {
+				out[ir.Edge{From: t.If.Block(), To: t.NilSucc}] = true
+			}
+		}
+	})
+	return out
 }
 
 func (h *H) statusIs(ctrl, constName string) func(ir.Cmp) bool {
